@@ -116,15 +116,18 @@ def run_e2e(cfg, hist):
     # split the history into steps: (bar action, [actions performed while handling that bar])
     steps = []
     for a in hist:
-        if a[0] == "bar":
+        if a[0] in ("bar", "bar="):
             steps.append((a, []))
         else:
             if not steps:
                 raise ValueError("history must start with a bar")
             steps[-1][1].append(a)
     per_pair = [[] for _ in range(npairs)]
-    for t, (bar, acts) in enumerate(steps, 1):
-        _, pi, si = bar
+    t = 0
+    for (bar, acts) in steps:
+        kind_, pi, si = bar
+        if kind_ == "bar":
+            t += 1
         o, h, l, c, v = (D(x) for x in SHAPES[si])
         v = v * exch.unit(cfg)
         per_pair[pi].append(bs.BarEvent(T(t), bs.Bar(T(t - 1), PAIRS[pi], o, h, l, c, v)))
@@ -134,16 +137,18 @@ def run_e2e(cfg, hist):
     w.t = 0
     w.ids, w.meta, w.lids, w.loan_meta, w.close, w.bars, w.bars_since = [], [], [], {}, {}, [], []
     w.cancelled, w.results = set(), []
+    w.last_kind = None
     events = []
     handled = []
 
     async def on_bar(ev):
-        t = int((ev.when - T(0)) / exch.STEP)
-        handled.append(t)
-        w.t = t
+        # bars are handled in history order (several may share a timestamp)
+        k = len(handled)
+        handled.append(k + 1)
+        w.t = int((ev.when - T(0)) / exch.STEP)
         # results are recorded in history order: the bar itself, then the actions
         w.results.append(None)
-        for a in steps[t - 1][1]:
+        for a in steps[k][1]:
             w.apply(a)
 
     async def on_order(ev):
@@ -172,7 +177,7 @@ def conformance(cfg, hist):
     bar_no = 0
     failed = []
     for act, r in zip(hist, a["results"]):
-        if act[0] == "bar":
+        if act[0] in ("bar", "bar="):
             bar_no += 1
             if r is not None:
                 failed.append(bar_no)
